@@ -5,8 +5,8 @@ from . import drivers as _d
 SOURCES = ['bytes', 'bytearray', 'bytesio', 'bitarray_kw', 'filename', 'filehandle', 'bitarray_le_kw']
 
 
-def window_program(rng, big=False):
-    calls = []
+def window_program(rng, big=False, lsb0=False):
+    calls = [_d.setopt('lsb0', 1)] if lsb0 else []
     for _ in range(rng.randint(2, 5)):
         nbytes = rng.choice([0, 1, 2, 3, 5, 8, 9] + ([150, 300] if big else []))
         kind = rng.choice(SOURCES)
@@ -45,9 +45,9 @@ def window_program(rng, big=False):
     return {'calls': calls}
 
 
-def tofile_program(rng, huge=False):
+def tofile_program(rng, huge=False, lsb0=False):
     """contents around the (hooked) chunk size: below / at / above / multiples"""
-    calls = []
+    calls = [_d.setopt('lsb0', 1)] if lsb0 else []
     chunk = rng.choice([8, 16, 64, 1024])
     for n in rng.sample([0, 1, 7, chunk - 1, chunk, chunk + 1, chunk + 5, 2 * chunk, 2 * chunk + 3, 3 * chunk - 1, 3 * chunk],
                         4):
